@@ -81,8 +81,12 @@ def generate(rng, seed, part):
     for _ in range(n + 6):
         vals = [build.draw_value(rng, p, inside_only=rng.random() < 0.7) for p in pools]
         entries.append([vals[0] if ndim == 1 else vals, build.draw_weight(rng, wkind)])
-    cfg = {"ndim": ndim, "axes": axes, "weights": wkind, "dtype": build.pick_dtype(rng, wkind),
-           "initial": n, "custom_errors": rng.random() < 0.2, "names": rng.random() < 0.5}
+    dtype = build.pick_dtype(rng, wkind)
+    if bulk and dtype in ("float16", "int16"):
+        dtype = {"float16": "float32", "int16": "int32"}[dtype]  # thousands of entries: beyond what 11 bits can count
+    cfg = {"ndim": ndim, "axes": axes, "weights": wkind, "dtype": dtype,
+           "initial": n, "custom_errors": rng.random() < 0.2, "names": rng.random() < 0.5,
+           "keep_missed": rng.random() < 0.8}
     ops = []
     nxt_entry = n
     for _ in range(rng.randint(1, 10)):
@@ -183,6 +187,8 @@ def make_node(cfg, entries):
     if ndim == 1:
         if cfg["dtype"]:
             kw["dtype"] = np.dtype(cfg["dtype"])
+        if not cfg.get("keep_missed", True):
+            kw["keep_missed"] = False
         h = f_h1(data[:, 0], bins[0], **kw)
     else:
         h = f_h(data, bins, **kw)
